@@ -4,7 +4,7 @@ from __future__ import annotations
 from kv import cw_tie, cycle_monitors as cm, cycle_runner as cr, cycle_sim as cs, framework as fw
 
 RULE = cr.RULE_HISTORY
-MONITORS = [cm.mon_c03, cm.mon_c03_downtime]
+MONITORS = [cm.mon_c03, cm.mon_c03_downtime, cm.mon_c03_deletion]
 
 
 def match_f13(f: dict) -> bool:
@@ -59,9 +59,41 @@ def gen_burst(r):
     return {'cfg': cfg, 'handlers': hs, 'actions': acts}
 
 
+def gen_deletion(r):
+    """Deletion as the outstanding change: several deletion handlers (run one per cycle under the default lifecycle), handlers
+    that ask for a retry with NO delay (`TemporaryError(delay=0)`, an arbitrary error with backoff=0), deletion requested while
+    an update cycle is open or the operator is down, restarts in the middle of the deletion."""
+    hs = [{'kind': 'create', 'id': 'c0', 'script': ['ok'], 'kwargs': {'backoff': 1}}]
+    if r.random() < 0.5:
+        hs.append({'kind': 'update', 'id': 'u0', 'script': r.choice([['ok'], ['temp:1', 'ok']]), 'kwargs': {'backoff': 1}})
+    for i in range(r.choice([1, 2, 2, 3])):
+        hs.append({'kind': 'delete', 'id': f'd{i}', 'script': r.choice([['ok'], ['ok'], ['temp:0', 'ok'], ['err', 'ok'], ['temp:1', 'ok'], ['temp:0', 'temp:0', 'ok']]),
+                   'kwargs': {'backoff': r.choice([0, 0, 1]), **({'optional': True} if r.random() < 0.15 else {})}})
+    acts = [{'a': 'create', 'obj': 'obj1', 'spec': {'a': 1}}, {'a': 'run', 'dt': r.choice([0.5, 2])}]
+    if r.random() < 0.5:
+        acts += [{'a': 'edit_spec', 'obj': 'obj1', 'patch': {'a': r.randrange(600, 700)}}, {'a': 'run', 'dt': r.choice([0.125, 0.5, 2])}]
+    if r.random() < 0.3:
+        acts.append({'a': 'foreign_fin_add', 'obj': 'obj1', 'fin': 'other/fin'})
+    acts.append({'a': 'delete', 'obj': 'obj1'})
+    for _ in range(r.choice([1, 2, 3])):
+        acts.append({'a': 'run', 'dt': r.choice([0.125, 0.5, 1, 3])})
+        x = r.random()
+        if x < 0.25:
+            acts.append({'a': r.choice(['stop_restart', 'kill_restart']), 'obj': 'obj1'})
+        elif x < 0.45:
+            acts.append({'a': 'edit_status', 'obj': 'obj1', 'status': {'external': r.randrange(100)}})
+        elif x < 0.55:
+            acts.append({'a': 'foreign_fin_del', 'obj': 'obj1', 'fin': 'other/fin'})
+    acts.append({'a': 'run', 'dt': 8})
+    cfg = cs.gen_cfg(r)
+    return {'cfg': cfg, 'handlers': hs, 'actions': acts}
+
+
 def gen(r, i):
     if i % 6 == 5:
         return gen_burst(r)
+    if i % 6 == 4:
+        return gen_deletion(r)
     return cs.gen_scenario(r, n_actions=14, daemons=(i % 4 == 0))
 
 
